@@ -422,6 +422,26 @@ def check_trim_real(specs):
             except Exception as e:  # noqa
                 bad.append((spec, max_fake, "EXC " + repr(e)))
                 continue
+            # an aligned head / tail is accepted only when the WHOLE stretch between it and the read end is T / A rich (75 % in the code,
+            # 70 % demanded here): a T-rich window behind ordinary sequence is not a polyT head
+            hl_ = spec[2][1]
+            seq_ = a.query_sequence
+            qmap = {}
+            qi = hl_
+            for (s_, e_) in exons:
+                for p_ in range(s_, e_ + 1):
+                    qmap[p_] = qi
+                    qi += 1
+            for nm_, pos_, base_, head in (("internal_polyt_pos", info0[3], "T", True), ("internal_polya_pos", info0[2], "A", False)):
+                if pos_ == -1 or sum(spec[0]) < 67:
+                    continue          # (shorter reads: the examined stretch runs into the clip at the other end of the read)
+                near = [qmap[x] for x in (pos_, pos_ + 1, pos_ + 2, pos_ - 1) if x in qmap]
+                if not near:
+                    continue
+                stretch = seq_[max(0, hl_ - 2):near[0] + 1] if head else seq_[near[0]:len(seq_) - spec[3][1] + 2]
+                if len(stretch) >= 16 and stretch.count(base_) < 0.7 * len(stretch) - 2:
+                    bad.append((spec, max_fake, "%s-stretch-not-rich: position %d, the stretch between it and the read end (%d bases) holds only %d %s" %
+                                (nm_, pos_, len(stretch), stretch.count(base_), base_)))
             if len(ai.read_exons) != len(exons):
                 nontriv += 1
             outcomes.add((len(exons), len(ai.read_exons), tuple(x != -1 for x in info0)))
